@@ -3,7 +3,7 @@ From Coq Require Extraction ExtrOcamlBasic.
 From Coq Require Import NArith ZArith.
 From TLV Require Fmt2.Fmt2Model Fmt2.Fmt2LexModel Fmt2.Fmt2ParseModel Fmt2.Fmt2PrintProofs Fmt2.Fmt2ParseProofs.
 (* the hypotheses of the theorems (wf_comb, wf2_comb, comb_bar) are extracted from the proof files so that the check can
-   evaluate them on every AST the real parser returns; vlib hashes only *Model.v: bump this line when they change (v1) *)
+   evaluate them on every AST the real parser returns; vlib hashes only *Model.v: bump this line when they change (v2: F19 repair, wf2_field/wf_field_core follow the field name) *)
 Extraction Blacklist String List Nat Int.
 Separate Extraction
   BinNat.N.add BinNat.N.mul BinNat.N.div_eucl BinNat.N.eqb BinNat.N.ltb BinNat.N.of_nat BinNat.N.to_nat
